@@ -713,19 +713,6 @@ func NewExocoreApp(
 		app.EpochsKeeper,
 	)
 
-	app.EvmKeeper.WithPrecompiles(
-		evmkeeper.AvailablePrecompiles(
-			app.AuthzKeeper,
-			app.TransferKeeper,
-			app.IBCKeeper.ChannelKeeper,
-			app.DelegationKeeper,
-			app.AssetsKeeper,
-			app.ExoSlashKeeper,
-			app.RewardKeeper,
-			app.AVSManagerKeeper,
-		),
-	)
-
 	app.Erc20Keeper = erc20keeper.NewKeeper(
 		keys[erc20types.StoreKey], appCodec, authtypes.NewModuleAddress(govtypes.ModuleName),
 		app.AccountKeeper, app.BankKeeper, app.EvmKeeper, app.StakingKeeper,
@@ -815,6 +802,23 @@ func NewExocoreApp(
 	app.EvmKeeper.SetHooks(
 		evmkeeper.NewMultiEvmHooks(
 			app.Erc20Keeper.Hooks(),
+		),
+	)
+
+	// the precompiles receive the keepers BY VALUE: they must be built after the hooks above are
+	// set, otherwise the delegation precompile works on a copy of the delegation keeper without
+	// hooks and an undelegation arriving through it never reaches the dogfood module
+	// (AfterUndelegationStarted): no hold is placed and it matures before the unbonding epochs end.
+	app.EvmKeeper.WithPrecompiles(
+		evmkeeper.AvailablePrecompiles(
+			app.AuthzKeeper,
+			app.TransferKeeper,
+			app.IBCKeeper.ChannelKeeper,
+			app.DelegationKeeper,
+			app.AssetsKeeper,
+			app.ExoSlashKeeper,
+			app.RewardKeeper,
+			app.AVSManagerKeeper,
 		),
 	)
 
